@@ -1,6 +1,7 @@
 package checks
 
 import (
+	"bytes"
 	"context"
 	"crypto/tls"
 	"encoding/base64"
@@ -284,7 +285,7 @@ func init() {
 	vf.Register(&vf.Check{
 		ID: "C14", Title: "SASL mechanisms interoperate with conforming servers",
 		Run: func(r *vf.Run) {
-			r.SetRule("user names and passwords/tokens: ALL strings of length 0..2 (thorough 0..3 for users) over {a B = , SP é 日 \\x01} plus a 300-byte value, as (user, password) pairs with the right and with two kinds of wrong server-side credentials, for PLAIN, LOGIN, CRAM-MD5 (× challenge strings), XOAUTH2, SCRAM-SHA-1, SCRAM-SHA-256; SCRAM parameter sweeps (salt lengths 1..20 and 64, iteration counts {1,2,3,4,4095,4096,4097,10000,20000} (thorough: every i<=512 and every 97th up to 20000), server nonce suffixes incl. '=' and 24 printable chars); SCRAM-SHA-1/256-PLUS over real TLS 1.2 (tls-unique) and TLS 1.3 (tls-exporter) handshakes; two exchanges on one Auth object (nonce freshness); the verdict of reference verifiers written from the RFCs (self-tested on RFC 5802/7677/2195/4616/6070 vectors) must be 'accepted' exactly when credentials are equal; distinct by case tuple")
+			r.SetRule("user names and passwords/tokens: ALL strings of length 0..2 (thorough 0..3 for users) over {a B = , SP é 日 \\x01} plus a 300-byte value, as (user, password) pairs with the right and with two kinds of wrong server-side credentials, for PLAIN, LOGIN, CRAM-MD5 (× challenge strings), XOAUTH2, SCRAM-SHA-1, SCRAM-SHA-256; SCRAM parameter sweeps (pseudo-random salts of length 1..20 and 64, all salts of length 1..3 over {00 01 '=' ff} and 16-byte salts framed by / made of those bytes, iteration counts {1,2,3,4,4095,4096,4097,10000,20000} (thorough: every i<=512 and every 97th up to 20000), server nonce suffixes incl. '=' and 24 printable chars); SCRAM-SHA-1/256-PLUS over real TLS 1.2 (tls-unique) and TLS 1.3 (tls-exporter) handshakes; two exchanges on one Auth object (nonce freshness); the verdict of reference verifiers written from the RFCs (self-tested on RFC 5802/7677/2195/4616/6070 vectors) must be 'accepted' exactly when credentials are equal; distinct by case tuple")
 			r.Assume("admissible credentials per mechanism: PLAIN non-empty without NUL; XOAUTH2 without ^A; SCRAM non-empty without control characters (SASLprep/PRECIS prohibit them); Unicode restricted to strings on which SASLprep and PRECIS OpaqueString agree",
 				"an empty server nonce suffix is not exercised (the property is silent)")
 			alpha := []string{"a", "B", "=", ",", " ", "é", "日", "\x01"}
@@ -344,6 +345,21 @@ func init() {
 					cases = append(cases, c14Case{Mech: mech, User: "user", Pass: "pencil", SUser: "user", SPass: "pencil", Salt: c18Bin(sl)})
 				}
 				cases = append(cases, c14Case{Mech: mech, User: "user", Pass: "pencil", SUser: "user", SPass: "pencil", Salt: c18Bin(64)})
+				// salts are arbitrary octets: all salts of length 1..3 over {0x00, 0x01, 0x3d '=', 0xff} and long salts
+				// framed by / made of the extreme bytes
+				sb := []byte{0x00, 0x01, '=', 0xff}
+				for _, a := range sb {
+					cases = append(cases, c14Case{Mech: mech, User: "user", Pass: "pencil", SUser: "user", SPass: "pencil", Salt: []byte{a}})
+					for _, b := range sb {
+						cases = append(cases, c14Case{Mech: mech, User: "user", Pass: "pencil", SUser: "user", SPass: "pencil", Salt: []byte{a, b}})
+						for _, c := range sb {
+							cases = append(cases, c14Case{Mech: mech, User: "user", Pass: "pencil", SUser: "user", SPass: "pencil", Salt: []byte{a, b, c}})
+						}
+						long := append(append([]byte{a}, c18Bin(14)...), b)
+						cases = append(cases, c14Case{Mech: mech, User: "user", Pass: "pencil", SUser: "user", SPass: "pencil", Salt: long})
+					}
+					cases = append(cases, c14Case{Mech: mech, User: "user", Pass: "pencil", SUser: "user", SPass: "pencil", Salt: bytes.Repeat([]byte{a}, 16)})
+				}
 				for _, sn := range []string{"x", "=", "==a=", "abcdefghijklmnopqrstuvwx", "!#$%&'()*+-./:;<>?@[]^_"} {
 					cases = append(cases, c14Case{Mech: mech, User: "user", Pass: "pencil", SUser: "user", SPass: "pencil", SNonce: sn})
 				}
